@@ -74,3 +74,6 @@ impl<T: Send + Sync + 'static> Default for CobwebCommandQueue<T>
 }
 
 //-------------------------------------------------------------------------------------------------------------------
+
+#[cfg(bevy_cobweb_verif)]
+impl<T: Send + Sync + 'static> CobwebCommandQueue<T> { pub(crate) fn verif_len(&self) -> usize { self.commands.len() } }
